@@ -226,7 +226,14 @@ where
             }
             SessionFrameBody::Disposition(disposition) => {
                 if let Some(dispositions) = self.session.on_incoming_disposition(disposition)? {
-                    for disposition in dispositions {
+                    // A disposition that crossed our end is still applied (the sends it settles
+                    // resolve), but nothing may follow the end on this channel, not even the
+                    // settling echo it asks for
+                    let ended = matches!(
+                        self.session.local_state(),
+                        SessionState::EndSent | SessionState::Discarding
+                    );
+                    for disposition in dispositions.into_iter().filter(|_| !ended) {
                         let disposition = self.session.on_outgoing_disposition(disposition)?;
                         self.outgoing
                             .send(disposition)
